@@ -30,7 +30,9 @@ def _kind(value):
 def parse_criteria(criteria):
 
     if isinstance(criteria, (str, func_xltypes.Text)):
-        search = re.search(CRITERIA_REGEX, str(criteria)).group
+        # (The operand is whatever follows the operator, line breaks
+        # included.)
+        search = re.search(CRITERIA_REGEX, str(criteria), re.DOTALL).group
         str_operator, str_value = search(1), search(2)
 
         operator = CRITERIA_OPERATORS.get(str_operator)
